@@ -186,6 +186,17 @@ static void run_one(const char *fn, kcase *q, int e){
         CHK(e, 0, j, g, want, 1e-12, ldexp(1.0, 2 * e), sd ? "sdev^2 = (n*sumsq - sum^2)/(n(n-1))" : "variance = (n*sumsq - sum^2)/(n(n-1))");
       }
       DelMatrix(&m); DelDVector(&v);
+      /* the same columns moved to a location about 1e6 spreads away (exact in double: integer multiples of 2^e): variance and
+         sdev are translation invariant (LawCovariance / ShiftCols in Kernels.tla) */
+      m = mat_of(&q->in[0], r, c, e); initDVector(&v);
+      for(int i = 0; i < r; i++) for(int j = 0; j < c; j++) m->data[i][j] += ldexp((double)(1048576L * (j + 1) * ((j % 2) ? -1 : 1)), e);
+      if(sd) MatrixColSDEV(m, v); else MatrixColVar(m, v);
+      if((int)v->size == c) for(int j = 0; j < c; j++){
+        double want = ldexp((double)q->out[3].v[j], 2 * e) / den, g = v->data[j];
+        if(sd) g = g * g;
+        CHK(e, 0, j, g, want, 1e-8, ldexp(1.0, 2 * e), sd ? "sdev^2 unchanged by a column location shift of 2^20 units" : "variance unchanged by a column location shift of 2^20 units");
+      }
+      DelMatrix(&m); DelDVector(&v);
     }
   }
   else if(!strcmp(fn, "MatrixColRMS")){
@@ -211,6 +222,13 @@ static void run_one(const char *fn, kcase *q, int e){
       if((int)cm->row != c || (int)cm->col != c) miss(e, (int)cm->row, (int)cm->col, (double)cm->row, (double)c, "result shape");
       else for(int i = 0; i < c; i++) for(int j = 0; j < c; j++)
         CHK(e, i, j, cm->data[i][j], ldexp((double)q->out[0].v[i * c + j], 2 * e) / den, 1e-12, ldexp(1.0, 2 * e), "cov[i][j] = (n*sum x_i x_j - sum x_i * sum x_j)/(n(n-1))");
+      DelMatrix(&m); DelMatrix(&cm);
+      /* translation invariance at a location about 1e6 spreads away (ShiftCols law) */
+      m = mat_of(&q->in[0], r, c, e); initMatrix(&cm);
+      for(int i = 0; i < r; i++) for(int j = 0; j < c; j++) m->data[i][j] += ldexp((double)(1048576L * (j + 1) * ((j % 2) ? -1 : 1)), e);
+      MatrixCovariance(m, cm);
+      if((int)cm->row == c && (int)cm->col == c) for(int i = 0; i < c; i++) for(int j = 0; j < c; j++)
+        CHK(e, i, j, cm->data[i][j], ldexp((double)q->out[0].v[i * c + j], 2 * e) / den, 1e-8, ldexp(1.0, 2 * e), "covariance unchanged by a column location shift of 2^20 units");
       DelMatrix(&m); DelMatrix(&cm);
     }
   }
